@@ -111,7 +111,9 @@ type checker struct {
 	movedAnswers int // liveness answers for an endpoint the entry no longer has
 }
 
-func failKey(id enode.ID, ip netip.Addr) string { return string(id[:]) + ip.String() }
+// The node database keys an address by its 16-byte form, in which a plain IPv4 address and its IPv4-mapped form are
+// the same: fruitless queries of one node under either representation count towards the same five.
+func failKey(id enode.ID, ip netip.Addr) string { a := ip.As16(); return string(id[:]) + string(a[:]) }
 
 func cloneModel(m []mbucket) []mbucket {
 	out := make([]mbucket, len(m))
